@@ -16,10 +16,11 @@ import (
 type Heap struct {
 	m     map[string]string // component -> current version term
 	epoch int               // bumped by a havoc-everything
+	formal map[string]bool  // non-nil: a formal heap (parameters of a recursive spec function); records the components read
 }
 
 func (h *Heap) clone() *Heap {
-	n := &Heap{m: make(map[string]string, len(h.m)), epoch: h.epoch}
+	n := &Heap{m: make(map[string]string, len(h.m)), epoch: h.epoch, formal: h.formal}
 	for k, v := range h.m {
 		n.m[k] = v
 	}
@@ -106,6 +107,7 @@ type VC struct {
 	mode     string // "full" or "safety"
 	defers   []*ssa.Defer
 	pendingWf [][2]string
+	recDefs  map[string]*recDef
 }
 
 func newVC(p *Program, fn *ssa.Function) *VC {
@@ -164,6 +166,10 @@ func (vc *VC) compDecl(comp string, s Sort) {
 
 // current version of a component in heap h (declaring the epoch-initial version lazily)
 func (vc *VC) get(h *Heap, comp string) string {
+	if h.formal != nil {
+		h.formal[comp] = true
+		return "H!" + comp
+	}
 	if v, ok := h.m[comp]; ok {
 		return v
 	}
@@ -619,4 +625,12 @@ func typeKey(t types.Type, s Sort) string {
 
 func shortTypeName(t types.Type) string {
 	return types.TypeString(t, func(p *types.Package) string { return shortPkg(p.Path()) })
+}
+
+type recDef struct {
+	sym   string
+	comps []string
+	ret   Sort
+	retT  types.Type
+	busy  bool
 }
